@@ -1,12 +1,12 @@
 """C09 — colliding exchanges leave both peers consistent: no crash, no deadlock."""
 import itertools
 
-from vf import monitors, walk
+from vf import monitors, timers, walk
 
 RULE = ('exhaustive: every ordered list of <=2 (quick) / <=3 (thorough, third level sampled) local triggers from '
         '{A,B}x{acquire, soft expire, hard expire, IKE rekey due, IKE lifetime over, DPD due} interleaved in every possible '
         'way with the delivery order of the in-flight datagrams, each leaf re-executed from a fresh handshake through the real '
-        'main_loop; plus seeded random walks (lossless and lossy with a final lossless drain that runs the retransmission timers). '
+        'main_loop; plus seeded random walks (lossless and lossy with a final lossless drain that runs the retransmission timers; a request may be given up only after the built-in number of transmissions, chained follow-up requests included). '
         'A case is one action sequence; distinct = distinct action sequences; non-trivial = the collision monitor evaluated every '
         'step of it and the quiescence oracle ran at its end.')
 ASSUMPTIONS = ['both endpoints run the repository code with mirror-image configurations (honest peers)',
@@ -56,6 +56,8 @@ def run(ck):
             ck.count('pairs_explored')
     # random walks
     nwalks = 1600 if not ck.thorough() else 160000
+    # in the walks a request "has timed out" only after the built-in number of transmissions: the retransmission part of the C13 monitor rides along
+    wmons = mons + [timers.TimerMonitor(ck, judge_dpd=False)]
     rng = ck.rng('walks', ck.shard[0])
     for w in range(nwalks):
         if not ck.mine(w):
@@ -63,7 +65,7 @@ def run(ck):
         lossy = w % 2 == 1
         # the start state is an established IKE_SA with one (every second walk: two) CHILD_SAs, over a rotating set of configurations
         conf = WALK_CONFS[w % len(WALK_CONFS)]
-        sc = walk.Scenario(seedbase + 7919 * w, mons, dict(conf), n_children=1 + w % 2)
+        sc = walk.Scenario(seedbase + 7919 * w, wmons, dict(conf), n_children=1 + w % 2)
         ck.seen('walk_confs', w % len(WALK_CONFS))
         if not sc.ok:
             ck.count('handshake_failed')
